@@ -142,6 +142,9 @@ def gen_cases(rng):
         if rng.random() < 0.6:
             add("object_interleaved", {"kind": kind, "other_seed": rng.randrange(2 ** 30), "target_size": 2 ** rng.randint(1, 3)},
                 _net(rng, 6, 9, plain=(kind == "greedy_span")), tree=True)
+    add("reusable_rgreedy_history", {"via": rng.choice(["search", "call"])}, mid(), )
+    cases[-1]["net2"] = mid()
+    add("seeded_optimizer_via_interface", {"other_seed": rng.randrange(2 ** 30)}, mid())
     add("rand_equation", {"kw": {"n": rng.randint(3, 12), "reg": rng.randint(2, 4), "n_out": rng.randint(0, 2),
                                  "n_hyper_in": rng.randint(0, 2), "n_hyper_out": rng.randint(0, 1), "d_max": rng.randint(2, 5)}})
     add("randreg_equation", {"kw": {"n": rng.choice([6, 8, 10]), "reg": 3}})
@@ -221,7 +224,7 @@ def run_case(prop, case):
         vals = [r.get(cid) for r in results]
         if ref.get(cid, "").startswith("EXC "):
             counters["case_raised:" + c["api"]] += 1
-        if (c.get("twice") or c["api"] == "object_interleaved") and not ref.get(cid, "").startswith("EXC "):
+        if (c.get("twice") or c["api"] in ("object_interleaved", "reusable_rgreedy_history", "seeded_optimizer_via_interface")) and not ref.get(cid, "").startswith("EXC "):
             try:
                 same = json.loads(ref[cid]).get("same")
             except Exception:
